@@ -2,7 +2,7 @@ from .core import BASE_TRUST
 
 META = {
     "category": "proof",
-    "text": "Lean 4 theorem crash_old_or_new: for any number of tables, any contents and any interleaving of the tables' commit operations, after EVERY prefix (a crash at any instant) each existing table file holds its complete old or complete new contents, and is therefore usable again once the control files are deleted. The operation sequence is REGENERATED on every run from lib/file/handler.go and lib/query/transaction.go by extract/fsproto (so an edit of the commit code changes the definition the theorem is about); encode-before-swap, lock-before-temp, encode-into-an-emptied-file (truncate and rewind before every encode) and equality with the reviewed list are theorems over the regenerated effect lists; at byte level (Model/FileBytes.lean: contents + write position under ftruncate/lseek/write, NUL-filled holes) a scanner over the regenerated loop bodies is proved sound (scan_sound) and gives gen_encode_loops_write_exact_bytes: the file swapped in is byte for byte the new encoding + ending line break for EVERY earlier content and position of the temp file and every cutting of the encoder's output into writes; the byte model itself is compared with the operating system on random truncate/seek/write sequences. Tied to the running code by killing the real csvq process at every named point reached during COMMIT (os.Exit without deferred calls = SIGKILL for the file system) and inspecting the directory",
+    "text": "Lean 4 theorem crash_old_or_new: for any number of tables, any contents and any interleaving of the tables' commit operations, after EVERY prefix (a crash at any instant) each existing table file holds its complete old or complete new contents, and is therefore usable again once the control files are deleted. The operation sequence is REGENERATED on every run from lib/file/handler.go and lib/query/transaction.go by extract/fsproto (so an edit of the commit code changes the definition the theorem is about); encode-before-swap, lock-before-temp, encode-into-an-emptied-file (truncate and rewind before every encode) and equality with the reviewed list are theorems over the regenerated effect lists; at byte level (Model/FileBytes.lean: contents + write position under ftruncate/lseek/write, NUL-filled holes) a scanner over the regenerated loop bodies is proved sound (scan_sound) and gives gen_encode_loops_write_exact_bytes: the file swapped in is byte for byte the new encoding + ending line break for EVERY earlier content and position of the temp file and every cutting of the encoder's output into writes; the byte model itself is compared with the operating system on random truncate/seek/write sequences; Transaction.Commit over the regenerated loop bodies WITH FAILING STEPS (Model/TxCommit.lean: an `if{ return }` directly behind an effect is its error check) gives encode_error_aborts_before_swap: for any created and updated tables and whatever else fails, an encoder that refuses ONE table makes Transaction.Commit return before ANY table is swapped in (gen_encode_loops_return_on_error is checked over every combination of failing steps). Tied the running code by killing the real csvq process at every named point reached during COMMIT (os.Exit without deferred calls = SIGKILL for the file system) and inspecting the directory; by transactions whose encoder refuses one table (a text longer than its fixed-length field, a character outside the table's encoding, a tab / line break in an LTSV value, an unspellable LTSV label or JSON path) in a record early / in the middle / late of tables below and above the writers' buffer sizes (4096, 65536 bytes), beside tables that are fine and a created one, run to their end and killed at the points they reach: the model's answer (nothing swapped: every table old) is compared with the files, and for fixed-length tables the model's own writer gives the expected bytes or the refusal; and by ONE transaction over 3-6 tables that differ pairwise in format, encoding (UTF-8 / BOM / UTF-16 LE BE with and without BOM / Shift_JIS), line break, delimiter, header and enclose-all (updated and created): every written file is byte for byte the file a transaction over that table alone writes, ends with the bytes the model gives for ITS encoding and line break, and is old or new after a kill behind each rename",
     "design_ref": "DESIGN.md section 5, C10",
     "note": "trusted: Lean kernel; extract/fsproto (go/ast, fails closed); POSIX rename(2) replaces atomically; data written before close(2) is on disk after a crash (no page-cache model); the crash points are the VerifPoint hooks (build tag verif), i.e. between - not inside - system calls",
     "technique": "Lean 4 machine-checked proof over a regenerated operation sequence (parametric in contents, all prefixes, all table interleavings) + process-kill enumeration of every crash point of the real binary",
@@ -19,7 +19,7 @@ def run(run):
         run.stream("c10", 320 if q else 1600, env={"VERIF_CSVQ": str(csvq)}, timeout=3000)
     return run.finish(
         level="proof",
-        rule="transactions updating 1-3 existing CSV tables (UPDATE / INSERT / DELETE+INSERT, 0-40 rows) and optionally creating one, killed at every VerifPoint reached from the start of COMMIT (each occurrence separately); non-trivial = distinct (crash point, number of tables, per-table state) signature",
+        rule="transactions updating 1-3 existing CSV tables (UPDATE / INSERT / DELETE+INSERT, 0-40 rows) and optionally creating one, killed at every VerifPoint reached from the start of COMMIT (each occurrence separately); 13 kinds of table an encoder refuses (or just accepts) x 4 table sizes around 4096 bytes (+ one above 65536) x offending record early / middle / late, with 1-2 innocent tables and a created one, to their end and killed at the first / a middle / the last point reached (thorough: the full grid, every point); 6 (thorough 40) transactions over 3-6 tables of pairwise different attributes against single-table commits; non-trivial = distinct (crash point, number of tables, per-table state) signature",
         trusted_base=BASE_TRUST + ["extract/fsproto", "POSIX rename/unlink/open(O_EXCL) semantics"],
         checker_cmd="cd /verif/lean && lake build Csvq.Props.C10 && lake env lean <#print axioms for every theorem>",
     )
